@@ -17,17 +17,28 @@ from ..core import viol
 
 ID = "C02"
 LEVEL = "exploration"
-TECHNIQUE = "bounded exhaustive enumeration of input structures (container x dims x order x index kinds x coords x names x flags) through the real Preprocessor / EOF with a value-encodes-label oracle"
+TECHNIQUE = "bounded exhaustive enumeration of input structures (container x dims x order x index kinds x coords x names x flags) through the real Preprocessor / EOF / cross-set models with a value-encodes-label oracle"
 RULE = (
     "container in {DataArray, Dataset(equal dims), Dataset(different dims), list[DA,DA], list[DA,DS]} x sample dims 1..3 x feature dims 1..3 "
     "x dimension order (all permutations up to 4 dims; identity/reverse/shuffle beyond) x index kind per dimension (int, unsorted int, str, "
     "descending datetime, descending float, MultiIndex on a sole sample/feature dim; full product up to 3 dims, one dim at a time beyond) "
-    "x non-index coords x internal names x preprocessing flags; non-trivial = matrix, data, component and score round trips all decoded cell by cell"
+    "x non-index coords x internal names x preprocessing flags (x data with / without zero-variance features: a non-zero and a zero constant column per variable); "
+    "non-trivial = matrix, data, component and score round trips all decoded cell by cell. "
+    "Cross-set models fitted on X and Y with equally many samples but DIFFERENT sample labels (Y lagged by one step / disjoint): class in {MCA, CCA, RDA, CPCCA, MCARotator; "
+    "thorough + HilbertMCA, HilbertCCA, CPCCARotator, HilbertMCARotator, HilbertCPCCARotator} x (1 sample dim | 2 sample dims with the first, the second or both relabelled; "
+    "thorough + 3 sample dims) x index kind of the relabelled dims (6 kinds, MultiIndex on a sole sample dim) x container pair (DA|DA, DS|DA, DA|DS, DA|list) x PCA on/off; "
+    "(F) one field has a single feature holding unevenly spaced codes of its sample labels, so its mode-1 scores must be one non-zero constant times the centred code at every label "
+    "(quick: MCA full, CCA / coded-X MCA every variant x kind, RDA / CPCCA every variant; thorough: full product); "
+    "(G) scores, components and their amplitude/phase carry their own field's dims and label sets without NaN, inverse_transform(scores) returns both input structures, and all values "
+    "equal those of the fit on the same numbers whose Y carries X's labels (quick: class x variant with kind/lag/container/PCA in turn; thorough: class x variant x kind x lag)"
 )
 ASSUMPTIONS = [
     "dimension lengths 2..4; caps on orders (5-6 dims) and index-kind products (>3 dims) as stated in the rule",
     "a ValueError naming a clash of sample_name/feature_name with an existing dimension is a documented refusal",
+    "cross-set fits pair the samples of X and Y by position (cpcca.py renames the sample dims for 'different coordinates with same length'); "
+    "8 x 2 x 2 samples at most, 4-6 features per field; rotators with power=1, 2 of 3 modes",
 ]
+TRUSTED = ["statsmodels import shim (/verif/shims) so that xeofs.cross constructors can be called"]
 TALLY_KEYS = ("container", "level", "group")
 MAX_REFUSED_FRACTION = 0.2
 EXHAUSTIVE = True
@@ -46,7 +57,7 @@ def labels_for(kind, n, dim):
     if kind == "unsorted":
         return np.roll(np.arange(n) * 3, 1)
     if kind == "str":
-        return np.array(["b", "a", "d", "c"][:n])
+        return np.array(["b", "a", "d", "c", "f", "e", "h", "g"][:n])
     if kind == "datetime_desc":
         return np.array(pd.date_range("2001-01-01", periods=n, freq="D")[::-1])
     if kind == "float_desc":
@@ -172,7 +183,7 @@ def cases(tier, seed):
     out = []
 
     def add(group, **kw):
-        c = dict(level="preprocessor", group=group, container="da", ns=1, nf=1, order=None, kinds=None, coords="none", names="default", flags=[False, False, False, False], item_order="same")
+        c = dict(level="preprocessor", group=group, container="da", ns=1, nf=1, order=None, kinds=None, coords="none", names="default", flags=[False, False, False, False], item_order="same", const=False)
         c.update(kw)
         nd = c["ns"] + c["nf"]
         if c["order"] is None:
@@ -231,7 +242,9 @@ def cases(tier, seed):
             for fl in itertools.product([False, True], repeat=4):
                 if not any(fl):
                     continue
-                add("flags", container=cont, ns=ns, nf=nf, flags=list(fl), kinds=[[d, "float_desc" if d == "lat" else "int"] for d in SDIMS[:ns] + FDIMS[:nf]])
+                for const in (False, True):
+                    # const: every variable additionally holds features whose value never changes along the samples
+                    add("flags", container=cont, ns=ns, nf=nf, flags=list(fl), const=const, kinds=[[d, "float_desc" if d == "lat" else "int"] for d in SDIMS[:ns] + FDIMS[:nf]])
     # E: model level (EOF): every container x shape x two orders x every index kind once
     for cont in CONTAINERS:
         for ns, nf in shapes:
@@ -242,6 +255,7 @@ def cases(tier, seed):
                 if ns == 1:
                     kk[0][1] = "mi" if o[0] else kk[0][1]
                 add("model", level="model", container=cont, ns=ns, nf=nf, order=o, kinds=kk)
+    out.extend(cross_cases(tier))
     return out
 
 
@@ -330,6 +344,10 @@ def decode_cells(out, truth, fixed=None, skip_dims=()):
 def _run_case_inner(case, seed, V, bad):
     from xeofs.preprocessing.preprocessor import Preprocessor
 
+    if case["level"] == "cross":
+        with warnings.catch_warnings():
+            warnings.simplefilter("ignore")
+            return _cross_level(case, seed, V, bad)
     inp, S = build_input(case)
     F = FDIMS[: case["nf"]]
     truth = truth_of(inp, S)
@@ -347,6 +365,21 @@ def _run_case_inner(case, seed, V, bad):
             return o.copy(data=rng.standard_normal(o.shape) * 3 + 7)
 
         work = [rnd(o) for o in inp] if isinstance(inp, list) else rnd(inp)
+        if case.get("const"):
+            # zero-variance features: the first feature cell of every variable is a non-zero constant, the last one
+            # (where the variable has at least three feature cells) is constant zero
+            def cst(o):
+                if isinstance(o, xr.Dataset):
+                    return o.map(cst)
+                fd = [d for d in o.dims if d not in S]
+                o = o.copy()
+                if int(np.prod([o.sizes[d] for d in fd])) >= 2:
+                    o[{d: 0 for d in fd}] = 3.0
+                if int(np.prod([o.sizes[d] for d in fd])) >= 3:
+                    o[{d: -1 for d in fd}] = 0.0
+                return o
+
+            work = [cst(o) for o in work] if isinstance(work, list) else cst(work)
         if wts:
             def w(o):
                 if isinstance(o, xr.Dataset):
@@ -476,9 +509,13 @@ def run_case(case, seed):
     feats = dict(container=case["container"], group=case["group"], mi=any(k == "mi" for _, k in case["kinds"]), names=case["names"], coords=case["coords"])
     if case["group"] == "list_order":
         feats["several_sample_dims"] = case["ns"] > 1
+    if case.get("const"):
+        feats["const_feature"] = True
+    if case["level"] == "cross":
+        feats = dict(container=case["container"], group=case["group"], mi=case["skind"] == "mi", several_sample_dims=case["ns"] > 1)
 
     def bad(check, msg, **extra):
-        V.append(viol(check, "EOF" if case["level"] == "model" else "Preprocessor", msg, **feats, **extra))
+        V.append(viol(check, case["cls"] if case["level"] == "cross" else "EOF" if case["level"] == "model" else "Preprocessor", msg, **feats, **extra))
 
     try:
         return _run_case_inner(case, seed, V, bad)
@@ -522,7 +559,311 @@ def _model_level(case, inp, S, truth, V, bad):
     return dict(violations=V, outcome="violation" if V else "ok", nontrivial=not V)
 
 
+# ----------------------------------------------------------------------------- cross-set models: X and Y carry their own sample labels
+# A lagged analysis pairs X(t) with Y(t + lag): both fields have the same number of samples but different sample labels
+# (xeofs pairs them by position; cpcca.py renames the sample dims "to avoid conflicts for different coordinates with same
+# length"). Every output of the second field must sit on the labels of the second field.
+
+CROSS_REAL = ["MCA", "CCA", "RDA", "CPCCA"]
+CROSS_Q = CROSS_REAL + ["MCARotator"]
+CROSS_T = CROSS_Q + ["HilbertMCA", "HilbertCCA", "CPCCARotator", "HilbertMCARotator", "HilbertCPCCARotator"]
+CROSS_PAIRS = ["da_da", "ds_da", "da_ds", "da_list"]
+CROSS_HOW = ["lag", "disjoint"]
+CROSS_LEN = {"time": 8, "run": 2, "member": 2, "lat": 2, "lon": 2, "x": 3}
+CROSS_BASE = {"MCARotator": "MCA", "CPCCARotator": "CPCCA", "HilbertMCARotator": "HilbertMCA", "HilbertCPCCARotator": "HilbertCPCCA"}
+
+
+def cross_variants(tier):
+    """(ns, sample dims whose labels differ between X and Y)"""
+    v = [(1, ["time"]), (2, ["time"]), (2, ["run"]), (2, ["time", "run"])]
+    if tier == "thorough":
+        v += [(3, ["time"]), (3, ["member"]), (3, ["time", "run", "member"])]
+    return v
+
+
+def cross_kinds(ns):
+    return KINDS if ns == 1 else KINDS[:5]
+
+
+def cross_cases(tier):
+    out = []
+
+    def add(group, cls, ns, ydims, kind, how, pair="da_da", use_pca=False, side=None):
+        S = SDIMS[:ns]
+        out.append(dict(level="cross", group=group, cls=cls, container=pair, ns=ns, nf=2, ydims=list(ydims), skind=kind, how=how, use_pca=use_pca, side=side,
+                        kinds=[[d, kind if d in ydims else "int"] for d in S], coords="none", names="default"))
+
+    variants = cross_variants(tier)
+    # F: value-encodes-label on the scores: one field has a single feature whose values are unique codes of the sample labels;
+    #    its mode-1 scores are then proportional to the centred codes, whatever the (linear) model
+    for cls in CROSS_REAL:
+        for side in ("y", "x"):
+            for iv, (ns, ydims) in enumerate(variants):
+                kk = cross_kinds(ns)
+                full = tier == "thorough" or (side == "y" and cls == "MCA")
+                for ik, kind in enumerate(kk):
+                    for ih, how in enumerate(CROSS_HOW):
+                        if not full:
+                            # quick: MCA (coded X) and CCA (coded Y): every variant x index kind, lag kinds in turn;
+                            # RDA/CPCCA (coded Y): every variant, index kinds and lag kinds in turn
+                            if (cls, side) in (("MCA", "x"), ("CCA", "y")):
+                                if ih != (iv + ik) % 2:
+                                    continue
+                            elif side == "x" or ik != (iv + CROSS_REAL.index(cls)) % len(kk) or ih != iv % 2:
+                                continue
+                        add("cross_code", cls, ns, ydims, kind, how, use_pca=bool((ik + ih + iv) % 2), side=side)
+    # G: relation with the fit on the same numbers whose Y carries X's labels: all outputs equal value by value, on Y's own labels
+    classes = CROSS_T if tier == "thorough" else CROSS_Q
+    for ic, cls in enumerate(classes):
+        for iv, (ns, ydims) in enumerate(variants):
+            kk = cross_kinds(ns)
+            if tier == "thorough":
+                # every class x variant x index kind x lag kind; container pair and PCA in turn
+                for ik, kind in enumerate(kk):
+                    for ih, how in enumerate(CROSS_HOW):
+                        j = ic + iv + ik + 2 * ih
+                        add("cross_relabel", cls, ns, ydims, kind, how, pair=CROSS_PAIRS[j % 4], use_pca=bool((j // 2) % 2))
+            else:
+                # every class x variant once, index kind / lag kind / container pair / PCA in turn; MultiIndex once per class
+                if cls in CROSS_BASE and iv in (1, 2):
+                    continue  # rotators (the costly fits): one and all sample dims relabelled
+                j = ic + iv
+                add("cross_relabel", cls, ns, ydims, kk[j % 5], CROSS_HOW[j % 2], pair=CROSS_PAIRS[j % 4], use_pca=bool((j // 2) % 2))
+                if ns == 1:
+                    add("cross_relabel", cls, ns, ydims, "mi", CROSS_HOW[(j + 1) % 2], pair=CROSS_PAIRS[(j + 1) % 4], use_pca=bool(j % 2))
+    return out
+
+
+def cross_labels(kind, n, dim, how):
+    """sample labels of a cross-set field: how='same' X's own; 'lag' shifted by one step (overlapping); 'disjoint'."""
+    if kind == "mi":
+        years = np.arange(2001, 2001 + n // 2) + {"same": 0, "lag": 1, "disjoint": 20}[how]
+        letters = ["u", "v"] if how == "disjoint" else ["x", "y"]
+        return pd.MultiIndex.from_product([years.tolist(), letters], names=(dim + "_a", dim + "_b"))
+    base = labels_for(kind, n, dim)
+    if how == "same":
+        return base
+    lag = how == "lag"
+    if kind == "int":
+        return base + (1 if lag else 100)
+    if kind == "unsorted":
+        return base + (3 if lag else 100)
+    if kind == "str":
+        return np.array([chr(ord(c) + (1 if lag else 10)) for c in base])
+    if kind == "datetime_desc":
+        return base + np.timedelta64(1 if lag else 1000, "D")
+    if kind == "float_desc":
+        return base + (1.5 if lag else 100.0)
+    raise ValueError(kind)
+
+
+def _cross_da(S, skinds, hows, fdims, values, name, reverse=False):
+    flab = {"lat": np.array([3.25, 1.75]), "lon": np.array([10, 20]), "x": np.array(["p", "r", "q"])}
+    labs = [cross_labels(skinds[d], CROSS_LEN[d], d, hows[d]) for d in S]
+    sizes = [len(l) for l in labs] + [1 if f.endswith("1") else CROSS_LEN[f] for f in fdims]
+    fnames = [f.rstrip("1") for f in fdims]
+    da = xr.DataArray(np.asarray(values, dtype=float).reshape(sizes), dims=list(S) + fnames, name=name)
+    for d, l in zip(S, labs):
+        if isinstance(l, pd.MultiIndex):
+            da = da.assign_coords(xr.Coordinates.from_pandas_multiindex(l, d))
+        else:
+            da = da.assign_coords({d: l})
+    for f, fn in zip(fdims, fnames):
+        da = da.assign_coords({fn: flab[fn][: da.sizes[fn]]})
+    return da.transpose(*da.dims[::-1]) if reverse else da
+
+
+def cross_fields(case, seed):
+    """X, Y (own labels), Y with X's labels (same numbers), codes of the coded side (or None)."""
+    S = SDIMS[: case["ns"]]
+    skinds = dict(case["kinds"])
+    same = {d: "same" for d in S}
+    own = {d: (case["how"] if d in case["ydims"] else "same") for d in S}
+    n = int(np.prod([CROSS_LEN[d] for d in S]))
+    rng = np.random.default_rng([seed, 11])
+    r = lambda k: rng.standard_normal(n * k)  # noqa: E731
+    pair, side = case["container"], case.get("side")
+    # unevenly spaced, so that no reordering of the samples combined with a sign flip maps the centred codes onto themselves
+    codes = 101.0 + np.arange(n) ** 2
+    if side == "x":
+        xs = [(["lat1"], codes, "u")]
+    else:
+        xs = [(["lat", "lon"], r(4), "u")] + ([(["lat"], r(2), "v")] if pair == "ds_da" else [])
+    if side == "y":
+        ys = [(["x1"], codes + 1000, "a")]
+    else:
+        ys = [(["x"], r(3), "a")] + ([(["x"], r(3), "b")] if pair == "da_ds" else []) + ([(["lon"], r(2), "b")] if pair == "da_list" else [])
+
+    def pack(items, hows, kind, reverse):
+        das = [_cross_da(S, skinds, hows, fd, v, nm, reverse) for fd, v, nm in items]
+        if kind == "ds":
+            return xr.Dataset({str(d.name): d for d in das})
+        if kind == "list":
+            return das
+        return das[0]
+
+    kx, ky = pair.split("_")
+    X = pack(xs, same, kx, False)
+    Y = pack(ys, own, ky, True)
+    Y0 = pack(ys, same, ky, True)
+    return S, X, Y, Y0, (codes if side == "x" else codes + 1000 if side == "y" else None)
+
+
+def _cross_model(case, X, Y, S):
+    import xeofs as xe
+
+    cls = case["cls"]
+    kw = dict(use_pca=case["use_pca"], n_pca_modes=3, random_state=1)
+    if case.get("side"):
+        kw.update(n_modes=1, n_pca_modes=1)
+
+    def make(name, n_modes):
+        k = dict(kw, n_modes=kw.get("n_modes", n_modes))
+        if name.endswith("CPCCA"):
+            k["alpha"] = [0.5, 1.0] if case.get("side") != "x" else [1.0, 0.5]
+        return getattr(xe.cross, name)(**k)
+
+    if cls in CROSS_BASE:
+        base = make(CROSS_BASE[cls], 3)
+        base.fit(X, Y, dim=tuple(S))
+        m = getattr(xe.cross, cls)(n_modes=2, power=1)
+        m.fit(base)
+        return m
+    m = make(cls, 2)
+    m.fit(X, Y, dim=tuple(S))
+    return m
+
+
+def _cells(da, S):
+    """{sample label tuple: values over the remaining dims} of a scores-like DataArray."""
+    rest = [d for d in da.dims if d not in S]
+    labs = [[_lab(x) for x in da[d].to_index().tolist()] for d in S]
+    v = np.asarray(da.transpose(*S, *rest).values)
+    return {tuple(labs[k][i] for k, i in enumerate(idx)): v[idx] for idx in np.ndindex(*v.shape[: len(S)])}
+
+
+def _score_structure(bad, sc, ref, S, what):
+    """scores: a DataArray over the sample dims + 'mode', label sets equal to those of its own field, no NaN."""
+    r0 = _items(ref)[0]
+    r0 = r0[list(r0.data_vars)[0]] if isinstance(r0, xr.Dataset) else r0
+    if not isinstance(sc, xr.DataArray) or set(sc.dims) != set(S) | {"mode"}:
+        bad("score_dims", "%s: dims %s, expected %s" % (what, getattr(sc, "dims", None), sorted(set(S) | {"mode"})), what=what)
+        return False
+    ok = True
+    for d in S:
+        got = {_lab(v) for v in sc[d].to_index().tolist()}
+        want = {_lab(v) for v in r0[d].to_index().tolist()}
+        if got != want:
+            bad("labels", "%s: labels of %s are not those of the field itself: %s unexpected, %s missing" % (what, d, sorted(map(str, got - want))[:3], sorted(map(str, want - got))[:3]), what=what)
+            ok = False
+    if bool(sc.isnull().any()):
+        bad("score_nan", "%s: %d NaN cells" % (what, int(sc.isnull().sum())), what=what)
+        ok = False
+    return ok
+
+
+def _same_cells(bad, a, b, S, lmap, what, check):
+    """cells of `a` (labels translated through lmap per dim) equal the cells of `b`."""
+    ca, cb = _cells(a, S), _cells(b.transpose(*a.dims), S)
+    ca = {tuple(lmap[d].get(l, l) if d in lmap else l for d, l in zip(S, k)): v for k, v in ca.items()}
+    if set(ca) != set(cb):
+        bad(check, "%s: label tuples differ from the reference fit" % what, what=what)
+        return
+    scale = max(max(float(np.max(np.abs(v))) for v in cb.values()), 1e-300)
+    err = max(float(np.max(np.abs(ca[k] - cb[k]))) for k in cb)
+    if not err <= 1e-9 * scale:
+        worst = max(cb, key=lambda k: float(np.max(np.abs(ca[k] - cb[k]))))
+        bad(check, "%s: value at the label paired with %s differs from the fit whose Y carries X's labels by %.2e (scale %.2e)" % (what, worst, err, scale), what=what)
+
+
+def _cross_level(case, seed, V, bad):
+    S, X, Y, Y0, codes = cross_fields(case, seed)
+    m = _cross_model(case, X, Y, S)
+    sx, sy = m.scores()
+    okx = _score_structure(bad, sx, X, S, "scores X")
+    oky = _score_structure(bad, sy, Y, S, "scores Y")
+    px, py = m.components()
+    check_structure(V, bad, X, px, "components X", drop=S, add=["mode"])
+    check_structure(V, bad, Y, py, "components Y", drop=S, add=["mode"])
+    for what, p in (("X", px), ("Y", py)):
+        for it in _items(p):
+            for vn, da in _vars(it):
+                if bool(da.isnull().any()):
+                    bad("component_nan", "components %s contain NaN for variable %s" % (what, vn), what="components " + what)
+    # complex families: amplitude and phase of the scores / components are outputs of the same kind
+    for meth in ("scores_amplitude", "scores_phase"):
+        if hasattr(m, meth):
+            ax, ay = getattr(m, meth)()
+            _score_structure(bad, ax, X, S, meth + " X")
+            _score_structure(bad, ay, Y, S, meth + " Y")
+    for meth in ("components_amplitude", "components_phase"):
+        if hasattr(m, meth):
+            ax, ay = getattr(m, meth)()
+            check_structure(V, bad, X, ax, meth + " X", drop=S, add=["mode"])
+            check_structure(V, bad, Y, ay, meth + " Y", drop=S, add=["mode"])
+    rec = m.inverse_transform(sx, sy) if okx and oky else None
+    if rec is not None:
+        if not isinstance(rec, (list, tuple)) or len(rec) != 2:
+            bad("container", "inverse_transform(X, Y) returned %s" % type(rec).__name__, what="inverse_transform")
+        else:
+            check_structure(V, bad, X, rec[0], "inverse_transform X")
+            check_structure(V, bad, Y, rec[1], "inverse_transform Y")
+    ncmp = 0
+    if case["group"] == "cross_code":
+        # value-encodes-label: the coded field has one feature, so its scores are a * (code - mean) with one constant a != 0
+        sc, ok = (sx, okx) if case["side"] == "x" else (sy, oky)
+        fld = X if case["side"] == "x" else Y
+        if ok:
+            truth = {k: float(np.ravel(v)[0]) for k, v in _cells(fld, S).items()}
+            got = {k: float(np.ravel(v)[0]) for k, v in _cells(sc.isel(mode=[0]), S).items()}
+            cm = float(np.mean(list(truth.values())))
+            amp = np.sqrt(sum(v * v for v in got.values()) / sum((c - cm) ** 2 for c in truth.values()))
+            if not amp > 0:
+                bad("score_cells", "scores of the single-feature field vanish", what="scores " + case["side"].upper())
+            else:
+                best = None
+                for sgn in (1.0, -1.0):
+                    wrong = [(k, got[k] / (sgn * amp) + cm) for k in got if abs(got[k] / (sgn * amp) + cm - truth[k]) > 1e-6]
+                    if best is None or len(wrong) < len(best):
+                        best = wrong
+                ncmp = len(got)
+                if best:
+                    k, c = best[0]
+                    inv = {round(v, 3): kk for kk, v in truth.items()}
+                    bad("score_cells", "score at %s decodes to %.3f = the sample %s (%d of %d cells wrong)" % (k, c, inv.get(round(c, 3), "of no label"), len(best), len(got)), what="scores " + case["side"].upper())
+    else:
+        m0 = _cross_model(case, X, Y0, S)
+        sx0, sy0 = m0.scores()
+        lmap = {}
+        for d in S:
+            if d in case["ydims"]:
+                y0 = _items(Y)[0]
+                y0 = y0[list(y0.data_vars)[0]] if isinstance(y0, xr.Dataset) else y0
+                z0 = _items(Y0)[0]
+                z0 = z0[list(z0.data_vars)[0]] if isinstance(z0, xr.Dataset) else z0
+                lmap[d] = dict(zip([_lab(v) for v in y0[d].to_index().tolist()], [_lab(v) for v in z0[d].to_index().tolist()]))
+        if okx:
+            _same_cells(bad, sx, sx0, S, {}, "scores X", "score_cells")
+        if oky:
+            _same_cells(bad, sy, sy0, S, lmap, "scores Y", "score_cells")
+            ncmp = sy.size
+        px0, py0 = m0.components()
+        if not V:
+            for what, p, p0 in (("X", px, px0), ("Y", py, py0)):
+                for a, b in zip(_items(p), _items(p0)):
+                    for vn, da in _vars(a):
+                        db = b[vn] if vn is not None else b
+                        fd = [d for d in da.dims if d != "mode"]
+                        _same_cells(bad, da, db, fd, {}, "components %s %s" % (what, vn or ""), "component_cells")
+    return dict(violations=V, outcome="violation" if V else "ok", nontrivial=not V and ncmp > 0, info=dict(cells=ncmp, group=case["group"]))
+
+
+
 def vacuity(outcomes, results, tier):
     if outcomes.get("ok", 0) < 100:
         return "fewer than 100 structures were decoded"
+    for g in ("cross_code", "cross_relabel"):
+        rs = [r for r in results if (r.get("info") or {}).get("group") == g]
+        if rs and not any(r.get("violations") or (r.get("nontrivial") and r["info"].get("cells", 0) > 0) for r in rs):
+            return "no cross-set case of group %s compared any score" % g
     return None
